@@ -16,6 +16,9 @@ ALLOWED_AXIOMS = set(props.ALLOWED_AXIOMS)
 FORBIDDEN = re.compile(r"\b(Admitted|admit|Axiom|Axioms|Parameter|Parameters|Conjecture|Conjectures|Hypothesis|Hypotheses|Variable|Variables|Admit Obligations|Unset Guard Checking|bypass_check|Unset Positivity Checking|Unset Universe Checking|type-in-type|impredicative-set)\b")
 
 
+COQC_LIMIT = int(os.environ.get("VERIF_COQC_LIMIT") or 1500)   # seconds per .v file
+
+
 class HarnessError(Exception):
     pass
 
@@ -115,7 +118,8 @@ def make_targets(targets, jobs=16, timeout=3000):
     """Full .vo build of the given targets and everything they depend on."""
     with Lock("coq.lock"):
         ensure_makefile()
-        rc, log = run(["make", "-j%d" % jobs] + targets, cwd=COQ, timeout=timeout)
+        # every coqc runs under its own time limit: a proof that no longer terminates is a broken proof, not a hang
+        rc, log = run(["make", "-j%d" % jobs, "COQC=timeout %d coqc" % COQC_LIMIT] + targets, cwd=COQ, timeout=timeout)
         return rc == 0, log
 
 
